@@ -129,6 +129,14 @@ def execute(task):
         ctx.on_completed = lambda: snap(0, 0)
     else:
         factory = None
+    try:
+        # uberjob memoises inspect.signature per function (lru_cache(4096)); the harness creates fresh functions for
+        # every execution, and each of them keeps its scheduler alive through its closure: forget them
+        from uberjob._util import validation as _val
+
+        _val.try_get_signature.cache_clear()
+    except Exception:
+        pass
     b = S.build(scn, ctx, factory)
     obs = None
     progress = None
